@@ -115,6 +115,7 @@ pub uninterp spec fn pair_snd(p: Seq<u8>) -> Seq<u8>;
 pub broadcast axiom fn ax_enc_pair(a: Seq<u8>, b: Seq<u8>) ensures pair_fst(#[trigger] enc_pair(a, b)) == a, pair_snd(enc_pair(a, b)) == b;
 pub trait KeyEnc: Sized { spec fn key_bytes(self) -> Seq<u8>; }
 impl KeyEnc for &Addr { open spec fn key_bytes(self) -> Seq<u8> { enc_str(self.s@) } }
+impl KeyEnc for Addr { open spec fn key_bytes(self) -> Seq<u8> { enc_str(self.s@) } }
 impl KeyEnc for &str { open spec fn key_bytes(self) -> Seq<u8> { enc_str(self@) } }
 impl KeyEnc for &String { open spec fn key_bytes(self) -> Seq<u8> { enc_str(self@) } }
 impl KeyEnc for String { open spec fn key_bytes(self) -> Seq<u8> { enc_str(self@) } }
@@ -163,6 +164,15 @@ impl<K: KeyEnc, T> Map<K, T> {
         ensures final(s).kv@ == old(s).kv@.remove(self.skey(k)) { unimplemented!() }
     #[verifier::external_body]
     pub fn has_key(&self, s: &Storage, k: K) -> (r: bool) ensures r == self.has(s, k) { unimplemented!() }
+    pub open spec fn may_get(&self, s: &Storage, k: K) -> Option<T> { if self.has(s, k) { Some(self.get(s, k)) } else { None } }
+    /// cw-storage-plus Map::update: may_load, apply, save the Ok value; on Err nothing is written
+    #[verifier::external_body]
+    pub fn update<A: FnOnce(Option<T>) -> Result<T, E>, E: From<StdError>>(&self, s: &mut Storage, k: K, action: A) -> (r: Result<T, E>)
+        requires action.requires((self.may_get(&*old(s), k),))
+        ensures match r {
+            Ok(v) => action.ensures((self.may_get(&*old(s), k),), Ok(v)) && final(s).kv@ == old(s).kv@.insert(self.skey(k), ser::<T>(v)),
+            Err(e) => final(s).kv@ == old(s).kv@ && action.ensures((self.may_get(&*old(s), k),), Err(e)),
+        } { unimplemented!() }
 }
 
 // ---- prefix iteration (ASSUMED model of `map.prefix((a, b)).range(store, None, None, Order::Ascending)`) ----
